@@ -53,6 +53,12 @@ if not getattr(_LR.__init__, "_verif_wrapped", False):
         pass
     _LR.__init__ = _init
 
+if os.environ.get("VERIF_SHIM_PRISTINE_WARNINGS") == "1":
+    # C11 worker processes: import the library exactly as a user would, so that the warning filter it installs at
+    # import (`warnings.simplefilter('always', PrivacyLeakWarning)`) is what the process runs with.  (The default
+    # branch below restores the filter list on leaving `catch_warnings`, i.e. it DROPS the library's filter.)
+    import diffprivlib  # noqa: E402,F401
+
 with warnings.catch_warnings():
     warnings.simplefilter("ignore")
     import diffprivlib as dp  # noqa: E402
